@@ -123,6 +123,10 @@ def payloads(fx_dir, tier):
         'undeclared_pe': (f'<!DOCTYPE ROOT [ %undeclared; <!ENTITY x "{MARK}">]>', '&x;', 'skippable'),
         'standalone_external_subset': (f'<!DOCTYPE ROOT SYSTEM "file://{extdtd}" [<!ENTITY x "{MARK}">]>', '&x;', True, True),
         'after_70k_prolog': (big + f'<!DOCTYPE ROOT [<!ENTITY x "{MARK}">]>', '&x;', True),
+        # clean documents whose root element starts near / after the end of the re-reader's 64 KiB buffer (the scanning
+        # parser reads ahead of it): parsed to the same tree as without defusing, or refused as not rewindable
+        'clean_root_at_64k': ('<!-- ' + 'x' * 65420 + ' -->', 'y' * 40000, False),
+        'clean_after_70k_prolog': (big, 'z' * 40000, False),
     }
     if tier == 'thorough':
         out['after_1m_prolog'] = ('<!-- ' + 'y' * 1100000 + ' -->' + f'<!DOCTYPE ROOT [<!ENTITY x "{MARK}">]>', '&x;', True)
@@ -408,6 +412,11 @@ def judge(res, xmlschema, counter, fx_dir, cell, payload, result, events):
             return
         if app and not declares:
             # clean document: must parse, and to the same tree as without defusing
+            if raised == 'library:XMLResourceOSError' and 'nonseekable' in kind and \
+                    cell['payload'] in ('clean_root_at_64k', 'clean_after_70k_prolog'):
+                # a stream that cannot be rewound, scanned beyond the re-reader's buffer: refusing is the safe answer
+                res.count('clean_long_prolog_on_nonseekable_stream_refused_as_not_rewindable')
+                return
             if raised:
                 res.violation(f'clean-document-refused:{role}:{kind}:{cell["payload"]}', cell, f'{cell}: {raised} {result.get("msg")}')
                 return
